@@ -653,7 +653,15 @@ def _extend(ch):
         ch.map(lambda a: ['atan', a]),
     )
     branch = st.builds(lambda c, a, b: ['if', c, a, b], _ineq(ch), ch, ch)
-    return st.one_of(arith, arith, arith, power, unary, unary, branch)
+    # a branch of an if_else that is a bare leaf (variable or shared sub-expression) which an operator standing later in
+    # the expression uses again: the reverse sweep reaches that leaf with contributions already accumulated
+    shared = st.one_of(st.tuples(st.just('v'), st.integers(0, NV - 1)).map(list),
+                       st.tuples(st.just('e'), st.integers(0, 5)).map(list))
+    reuse = st.builds(lambda c, a, leaf, b, op, swap, first:
+                      [op, ['if', c, leaf, a] if swap else ['if', c, a, leaf], ['*', leaf, b]] if first else
+                      [op, ['*', leaf, b], ['if', c, leaf, a] if swap else ['if', c, a, leaf]],
+                      _ineq(ch), ch, shared, ch, st.sampled_from(['+', '-', '*']), st.booleans(), st.booleans())
+    return st.one_of(arith, arith, arith, power, unary, unary, branch, reuse)
 
 
 def _expr(max_leaves):
